@@ -184,6 +184,9 @@ func createImageFunctions() { //nolint:funlen // this is a group of related func
 			if x < 0 || y < 0 {
 				return object.Errorf("image sizes must be positive")
 			}
+			// 4 bytes per pixel for the image and 4 for the rasterizer buffer: same budget check as the
+			// containers (image.new in a loop, each under a new name, otherwise exhausts the memory).
+			object.MustBeOk(x * y * 8 / object.ObjectSize)
 			img := image.NewNRGBA(image.Rect(0, 0, x, y))
 			images[args[0]] = GrolImage{Image: img, Vect: vector.NewRasterizer(x, y), W: x, H: y}
 			return args[0]
